@@ -341,8 +341,17 @@ func (sel *Selection) beginEdit(r NodeRequest, bubble bool) error {
 	if err := sel.Browser.Triggers.beginEdit(r); err != nil {
 		return err
 	}
+	unwind := r
 	for {
 		if err := r.Selection.Node.BeginEdit(r); err != nil {
+			// tell everyone who was told this edit begins that it ended: the
+			// caller does not call endEdit for a begin that failed
+			for s := sel; s != r.Selection; s = s.parent {
+				unwind.Selection = s
+				s.Node.EndEdit(unwind)
+				unwind.EditRoot = false
+			}
+			sel.Browser.Triggers.endEdit(unwind)
 			return err
 		}
 		if r.Selection.parent == nil || !bubble {
@@ -356,9 +365,12 @@ func (sel *Selection) beginEdit(r NodeRequest, bubble bool) error {
 
 func (sel *Selection) endEdit(r NodeRequest, bubble bool) error {
 	r.Selection = sel
+	// every node that was told the edit begins is told it ended, even when
+	// one of them fails; the first failure is reported
+	var firstErr error
 	for {
-		if err := r.Selection.Node.EndEdit(r); err != nil {
-			return err
+		if err := r.Selection.Node.EndEdit(r); err != nil && firstErr == nil {
+			firstErr = err
 		}
 		if r.Selection.parent == nil || !bubble {
 			break
@@ -366,10 +378,10 @@ func (sel *Selection) endEdit(r NodeRequest, bubble bool) error {
 		r.Selection = r.Selection.parent
 		r.EditRoot = false
 	}
-	if err := sel.Browser.Triggers.endEdit(r); err != nil {
-		return err
+	if err := sel.Browser.Triggers.endEdit(r); err != nil && firstErr == nil {
+		firstErr = err
 	}
-	return nil
+	return firstErr
 }
 
 func (sel *Selection) Delete() (err error) {
